@@ -106,17 +106,34 @@ def written_protected(L, res):
     return bad
 
 
+def accompany(cfg, name):
+    """what else is pending next to the trigger: nothing, ordinary changes, and - for the per-disk triggers - new files arriving
+    on the very disk whose known files are all gone (a fresh file; a look-alike copy of a file of another disk)"""
+    acc = [False, True]
+    kind, _, d = name.partition(":")
+    if kind in ("all-missing", "all-rewritten", "missing+rewritten"):
+        acc += ["insert:" + d, "copy:" + d, "insert+copy:" + d]
+    return acc
+
+
 def trigger_job(j):
     cfg, saved, name, ops, override, edit, with_pending, seed = j
     L = X.materialize(cfg, saved, seed)
-    if with_pending:
+    if with_pending is True:
         for op in PENDING:
             X.apply_op(L, op)
     arm(L, ops)
+    if isinstance(with_pending, str):
+        what, _, d = with_pending.partition(":")
+        other = next(x for x in cfg.disknames if x != d)
+        if "insert" in what:
+            X.apply_op(L, ("write", d, "arrived/fresh", 900, 0))
+        if "copy" in what:
+            X.apply_op(L, ("cp", other, "f1", d, "arrived/f1"))
     edit_conf(L, edit)
     before = protected(L)
     v = []
-    where = "%s%s" % (name, "+pending" if with_pending else "")
+    where = "%s%s" % (name, "+pending" if with_pending is True else "+" + with_pending if with_pending else "")
     res = L.run("sync")
     after = protected(L)
     if res.rc == 0:
@@ -235,7 +252,7 @@ def run(ctx):
                     lock_jobs.append(("lock", (cfg, saved, name, ops, cmd, k, ctx.seed)))
         jobs = []
         for name, ops, override, edit in triggers(cfg):
-            for wp in (False, True):
+            for wp in accompany(cfg, name):
                 jobs.append(("trigger", (cfg, saved, name, ops, override, edit, wp, ctx.seed)))
         jobs += lock_jobs
         done = 0
